@@ -31,6 +31,8 @@ fn one(case: &Value) -> Result<Value, String> {
                 out["any_shape"] = crate::recser::record(&any).unwrap_or_else(|e| json!({"err": e.to_string()}));
                 let back = ty.deserialize(any.clone()).map_err(|e| e.to_string());
                 out["roundtrip"] = json!({"equal": back.as_ref().ok() == Some(&val), "back": res(&back)});
+                let again = any.clone().deserialize_into::<Any>();
+                out["any_to_any"] = json!({"equal": again.as_ref().ok() == Some(&any), "err": again.err().map(|e| e.to_string())});
                 // (b) same JSON document
                 let ja = conjure_serde::json::to_string(&any).map_err(|e| e.to_string());
                 let jv = conjure_serde::json::to_string(&val).map_err(|e| e.to_string());
